@@ -177,7 +177,10 @@ MODE_FLAGS = {
     # ASan+UBSan; UBSan recoverable so that every report of a run is seen
     "san": ["-O1", "-g1", "-fno-omit-frame-pointer", "-fsanitize=address,undefined"],
     "ubsan": ["-O1", "-g1", "-fno-omit-frame-pointer", "-fsanitize=undefined"],
-    "plain": ["-O2"],
+    # what a user's release build looks like: with NDEBUG sbepp compiles the *unchecked* arms of its
+    # `#if SBEPP_SIZE_CHECKS_ENABLED` code (unless a configuration asks for SBEPP_ENABLE_ASSERTS_WITH_HANDLER, which
+    # keeps the checks on regardless); the sanitizer modes leave NDEBUG off and so compile the checked arms
+    "plain": ["-O2", "-DNDEBUG"],
     "O0": ["-O0", "-g1"],
 }
 
